@@ -5,7 +5,7 @@ the worker's worktree, run the quick check(s) named in its meta.json against it 
 usage: seedpar.py [-j N] [seed names...]     -> one line per (seed, check) in seeded/RESULTS.txt (sorted), summary on stdout."""
 import sys, os, json, subprocess, shutil, threading, queue, time
 
-VERIF = '/verif'
+VERIF = os.path.dirname(os.path.dirname(os.path.abspath(__file__)))   # the tree this script belongs to (a snapshot under vp run works on itself)
 args = sys.argv[1:]
 N = 4
 if args[:1] == ['-j']:
